@@ -21,11 +21,11 @@ from vf import core
 # describe the proposed repair (mutants/C48/FIX_proposed.diff); the monitor is the same either way.
 REPAIRED = os.environ.get("VERIF_C48_REPAIRED", "0") == "1"
 
-ALPHABET = ("a", "sp", "sq", "dq", "bs", "dl", "bt", "sc", "nl", "pc", "bg", "ct", "na", "at", "hy", "lb")
+ALPHABET = ("a", "sp", "sq", "dq", "bs", "dl", "bt", "sc", "nl", "pc", "bg", "ct", "cw", "na", "at", "hy", "lb")
 CLASS_CHARS = {
     "a": "ghijklmopqswyzGHIJKLMOPQSWYZ89",  # no printf escape letters, no octal digits
     "sp": " ", "sq": "'", "dq": '"', "bs": "\\", "dl": "$", "bt": "`", "sc": ";|&()<>", "nl": "\n", "pc": "%",
-    "bg": "!", "ct": "\x01\x02\t\r\x1b\x1f\x0b", "na": "éü漢☃", "at": "@", "hy": "-", "lb": "[]{}",
+    "bg": "!", "ct": "\x01\x02\x1b\x1f", "cw": "\t\r\x0b", "na": "éü漢☃", "at": "@", "hy": "-", "lb": "[]{}",
 }
 PAYLOADS = [
     "$(touch pwn)", "`touch pwn`", "'; touch pwn; '", "\"; touch pwn; \"", "\ntouch pwn\n", "; touch pwn #", "| touch pwn",
@@ -86,8 +86,8 @@ def curl_decode(argv: list[bytes]):
             if h.endswith(b";"):
                 out_h.append(h[:-1] + SEP.encode())
             continue  # no colon: not a header line curl sends as given
-        if val == b"":
-            continue  # "Name:" removes the header
+        if val.strip(b" \t\r\n\x0b\x0c") == b"":
+            continue  # "Name:" (nothing but white space after the colon) removes the header
         out_h.append(name + SEP.encode() + val)
     body = None
     for opt, d in data:
@@ -242,7 +242,7 @@ class Check(core.PropertyCheck):
         small = ctx.model_check(self.MODEL, self.model_constants("quick"), dump=True, timeout=1200)
         if ctx.quick:
             return [small]
-        big = ctx.model_check(self.MODEL, self.model_constants("thorough"), dump=False, tag="_big", timeout=2400)
+        big = ctx.model_check(self.MODEL, self.model_constants("thorough"), dump=False, tag="_big", timeout=3000, workers=4)
         return [small, big]
 
     # ---- scenarios ----------------------------------------------------------------------------------------
@@ -320,7 +320,7 @@ class Check(core.PropertyCheck):
             if field in ("method", "hname"):
                 s = s.replace(" ", "")
         if field in ("hname", "hval"):
-            s = s.strip(" \t")
+            s = s.strip(" \t\r\n\x0b\x0c")  # HTTP trims blanks around names and values
             if field == "hname":
                 s = s.replace(":", "")
         if field == "host":
